@@ -65,7 +65,7 @@ def run(ctx):
     conv = prog.func("iodata.__main__.convert")
     main = prog.func("iodata.__main__.main")
     api = {n: prog.func(f"iodata.api.{n}") for n in API_ROLE}
-    ctx.clauses_decided = ["R1 thin wrapper", "R2 argparse binding", "R3 no swallowed failure", "R4 console script", "R5 writers' required lists are truthful (failed conversions leave the output untouched)"]
+    ctx.clauses_decided = ["R1 thin wrapper", "R2 argparse binding", "R3 no swallowed failure", "R4 console script", "R5 writers required lists are truthful; segmentation pre-flight agreement", "R6 no absorbed arithmetic exceptions"]
     ctx.clauses_declined = [
         "byte-for-byte equality observed through a subprocess",
         "effect of np.seterr trapping on particular inputs (can only turn success into non-zero exit)",
@@ -352,3 +352,28 @@ def run(ctx):
     from .segpred import check_segmentation
 
     check_segmentation(ctx, "R5", "R5")
+
+    # ------------------------------------------------------------------ R6
+    # main() switches numpy to raising floating-point errors; the library API does not.  Library code that absorbs an
+    # arithmetic exception therefore behaves differently under the CLI than under load_one/dump_one on the same file.
+    ctx.rule("R6", "library code does not absorb arithmetic exceptions (the CLI traps floating-point errors, the API does not)", "the CLI silently takes another path than the API on the same input and writes different bytes")
+    from .c07 import _ends_raising
+
+    seterr = [cs for cs in main.calls if cs.external == "numpy.seterr"]
+    FP = {"ArithmeticError", "FloatingPointError", "ZeroDivisionError", "OverflowError"}
+    nh = 0
+    for f in prog.package_funcs():
+        if f.module.name == "iodata.__main__":
+            continue
+        for n in f.own_nodes():
+            if isinstance(n, ast.ExceptHandler) and n.type is not None:
+                names = {x.id if isinstance(x, ast.Name) else getattr(x, "attr", "") for x in (n.type.elts if isinstance(n.type, ast.Tuple) else [n.type])}
+                if names & FP:
+                    nh += 1
+                    if _ends_raising(n.body):
+                        ctx.ok("R6", f"{f.name}: `except {src_of(n.type)}` re-raises / converts on every path", f"{f.module.relpath}:{n.lineno}")
+                    else:
+                        ctx.violate("R6", f"`except {src_of(n.type)}` in library code can complete without raising: under iodata-convert (floating-point errors raise) this branch runs, under the API it does not" + ("" if seterr else " [note: main() no longer calls numpy.seterr]"), f, n)
+    if seterr:
+        ctx.ok("R6", "main() enables floating-point trapping before converting (a numerical fault ends the process non-zero)", f"{main.module.relpath}:{seterr[0].node.lineno}")
+    ctx.floor("R6", nh, 1, "handlers naming arithmetic exceptions")
